@@ -763,7 +763,12 @@ impl<T, R: Recognizer<Target = T>> Recognizer for VecRecognizer<T, R> {
     }
 
     fn reset(&mut self) {
-        self.stage = BodyStage::Init;
+        // An attribute-body instance starts between items (see `new`).
+        self.stage = if self.is_attr_body {
+            BodyStage::Between
+        } else {
+            BodyStage::Init
+        };
         self.vector.clear();
         self.rec.reset();
     }
@@ -1121,7 +1126,14 @@ where
 
     fn reset(&mut self) {
         self.key = None;
-        self.stage = MapStage::Init;
+        // An attribute-body instance starts between entries (see `new_attr`); entries read before a failure must
+        // not leak into the next map.
+        self.stage = if self.is_attr_body {
+            MapStage::Between
+        } else {
+            MapStage::Init
+        };
+        self.map.clear();
         self.key_rec.reset();
         self.val_rec.reset();
     }
